@@ -160,6 +160,18 @@ def gen_getmetric(rng, cid):
         if not structured and len(req) >= 2 and rng.random() < 0.12 and all(a in have for a in req):
             reg = twin_registry(rng, grid, adims, req)
         case = {"id": cid, "ev": "GetMetric", "grid": grid, "reg": reg, "adims": adims, "ashape": ashape, "axes": req}
+        multi = [k_ for k_, e in enumerate(reg) if len(e["dims"]) >= 2]
+        if multi and rng.random() < 0.15:
+            # one variable of the registry replaces (overwrite=True) an earlier one at the same position that was stored
+            # with its dimensions in another order
+            k_ = rng.choice(multi)
+            e = reg[k_]
+            o_ = list(range(len(e["dims"])))
+            while o_ == sorted(o_):
+                rng.shuffle(o_)
+            first = {"key": list(e["key"]), "var": e["var"] + "_first", "dims": [e["dims"][i] for i in o_],
+                     "shape": [e["shape"][i] for i in o_], "flat": [rng.randint(5, 9) for _ in e["flat"]]}
+            case["replaced"] = [k_, first]
         if rng.random() < 0.35:
             # earlier lookups on the same Grid, for arrays at other positions of the same axes: what get_metric
             # answers depends on the registry and on the array, not on what was looked up before
@@ -256,8 +268,19 @@ def execute(case):
     rec = dict(case)
     try:
         ds = model.build_dataset(case["grid"])
-        metrics = register(case, ds, nm)
+        rep = case.get("replaced")          # [index in reg, entry that was registered there first]
+        if rep:
+            # the registry of the record is what results from registering `first`, then overwriting it with the entry
+            # now at that place of `reg` (same axes, same position, possibly stored in another dimension order)
+            k_, first = rep
+            metrics = register(dict(case, reg=case["reg"][:k_] + [first] + case["reg"][k_ + 1:]), ds, nm)
+            ds[nm(case["reg"][k_]["var"])] = model.make_array(case["reg"][k_], nm)
+        else:
+            metrics = register(case, ds, nm)
         grid, ds = model.make_grid(case["grid"], ds=ds, metrics=metrics)
+        if rep:
+            e_ = case["reg"][rep[0]]
+            grid.set_metrics(tuple(nm(a) for a in e_["key"]), nm(e_["var"]), overwrite=True)
         ev = case["ev"]
         if ev == "GetMetric":
             for b in case.get("before", []):
